@@ -406,7 +406,120 @@ func (p c09) cyclicConfig(c *core.Ctx) {
 	c.Nontrivial("cyclic|" + doc + tag)
 }
 
+// suppliedFault: a component that a post-processor supplies ready-made before instantiation still passes the
+// after-initialization callbacks; when one of them reports an error for it, the start fails like for any
+// component - and no runner runs.
+func (p c09) suppliedFault(c *core.Ctx) {
+	g := world.NewG(c.Rng)
+	t := g.AddNode([]int{0, 1, 3, 6, 12}[c.Rng.Intn(5)], g.FreshName(0))
+	g.AddNode(world.TypesRunner[c.Rng.Intn(len(world.TypesRunner))], g.FreshName(1))
+	for x := 0; x < 1+c.Rng.Intn(3); x++ {
+		k := g.AddRandomNode(world.TypesEagerPlain, 0.2)
+		if c.Rng.Intn(2) == 0 {
+			g.EdgeByName(k, t, "", "iface")
+		}
+	}
+	g.ShuffleOrders()
+	tn := g.Sc.Nodes[t].DisplayName()
+	npp := 1 + c.Rng.Intn(3)
+	var extra []any
+	for k := 0; k < npp; k++ {
+		extra = append(extra, world.NewPP(c.Rng.Intn(4), fmt.Sprintf("pp%d", k), c.Rng.Intn(5)-2))
+	}
+	world.PPCoreOf(extra[c.Rng.Intn(npp)]).Supply = tn
+	faulty := c.Rng.Intn(3) != 0
+	if faulty {
+		fp := world.PPCoreOf(extra[c.Rng.Intn(npp)])
+		fp.FailOn["after:"+tn] = true
+		fp.NilOnFail = c.Rng.Intn(2) == 0
+	}
+	r := world.Start(g.Sc, world.Options{Extra: extra})
+	c.Count("starts", 1)
+	c.Count("supplied_component_starts", 1)
+	detail := failDetail(g.Sc, r, map[string]any{"supplied": tn, "after_initialization_fault": faulty})
+	if abnormal(r.Outcome()) {
+		c.Fail("", "supplied component: "+core.Short(r.OutcomeDetail(), 300), detail)
+		return
+	}
+	runs := countEvents(r, "run")
+	if !faulty {
+		if r.Outcome() != "ok" {
+			c.Fail("", "supplied component without any fault: "+core.Short(r.OutcomeDetail(), 300), detail)
+			return
+		}
+	} else if r.Outcome() != "error" || runs != 0 {
+		c.Fail("", fmt.Sprintf("an after-initialization callback reported an error for %q (a component supplied by a post-processor before instantiation), but App.Run returned %s and %d runner(s) ran", tn, r.Outcome(), runs), detail)
+		return
+	}
+	c.Nontrivial(fmt.Sprintf("suppliedfault|%v|%s", faulty, g.Sc.GraphSig()))
+}
+
+// oddKinds: wiring tags on fields that no component can ever fit - a struct held by value, a func, an int, a map:
+// a required one is an unsatisfied required point (a clean error, no panic), an optional one stays at its zero
+// value and the start succeeds.
+func (p c09) oddKinds(c *core.Ctx) {
+	g := world.NewG(c.Rng)
+	g.AddNode(world.TypesRunner[c.Rng.Intn(len(world.TypesRunner))], g.FreshName(0))
+	for x := 0; x < 1+c.Rng.Intn(3); x++ {
+		g.AddRandomNode(world.TypesEagerPlain, 0.2)
+	}
+	g.ShuffleOrders()
+	kinds := []struct {
+		label string
+		t     reflect.Type
+	}{
+		{"struct held by value", reflect.TypeOf(world.PoolCfg{})},
+		{"func", reflect.TypeOf(func() {})},
+		{"int", reflect.TypeOf(0)},
+		{"string", reflect.TypeOf("")},
+		{"map", reflect.TypeOf(map[string]world.IA{})},
+		{"pointer to pointer", reflect.TypeOf((**world.PoolCfg)(nil))},
+		{"channel", reflect.TypeOf((chan world.IA)(nil))},
+	}
+	k := kinds[c.Rng.Intn(len(kinds))]
+	required := c.Rng.Intn(2) == 0
+	name := []string{"", "", "no-such-component", g.Sc.Nodes[len(g.Sc.Nodes)-1].DisplayName()}[c.Rng.Intn(4)]
+	tagName := []string{"wire", "wire", "func"}[c.Rng.Intn(3)]
+	tag := name
+	if !required {
+		tag += ",required=false"
+	}
+	fields := []world.FieldSpec{{Name: "Odd", Type: k.t, Tag: world.WireTag(tagName, tag)}, {Name: "Fine", Type: world.TypeAny, Tag: `wire:",required=false"`}}
+	if c.Rng.Intn(2) == 0 {
+		fields[0], fields[1] = fields[1], fields[0]
+	}
+	h := world.NewHolder(world.BuildStruct(fields))
+	r := world.Start(g.Sc, world.Options{Extra: []any{h}})
+	c.Count("starts", 1)
+	c.Count("odd_kind_point_starts", 1)
+	detail := failDetail(g.Sc, r, map[string]any{"field": fmt.Sprintf("Odd %s `%s`", k.t, world.WireTag(tagName, tag))})
+	if abnormal(r.Outcome()) {
+		c.Fail("", fmt.Sprintf("a %s point on a field of kind %s (required=%v): %s", tagName, k.label, required, core.Short(r.OutcomeDetail(), 300)), detail)
+		return
+	}
+	runs := countEvents(r, "run")
+	odd := reflect.ValueOf(h).Elem().FieldByName("Odd")
+	if required {
+		if r.Outcome() != "error" || runs != 0 {
+			c.Fail("", fmt.Sprintf("required %s point on a field of kind %s that nothing fits: App.Run returned %s, %d runner(s) ran", tagName, k.label, r.Outcome(), runs), detail)
+			return
+		}
+	} else if r.Outcome() != "ok" || !odd.IsZero() {
+		c.Fail("", fmt.Sprintf("optional %s point on a field of kind %s that nothing fits: App.Run returned %s, field zero=%v: %s", tagName, k.label, r.Outcome(), odd.IsZero(), core.Short(r.OutcomeDetail(), 200)), detail)
+		return
+	}
+	c.Nontrivial(fmt.Sprintf("oddkind|%s|%s|%v|%s", k.label, tagName, required, name))
+}
+
 func (p c09) Run(c *core.Ctx) {
+	if c.Index%20 == 6 {
+		p.suppliedFault(c)
+		return
+	}
+	if c.Index%20 == 13 {
+		p.oddKinds(c)
+		return
+	}
 	if c.Index%20 == 11 {
 		p.factoryAware(c)
 		return
